@@ -376,9 +376,9 @@ DeClose ==
 \* a value built without parsing: json!([]) / Value::new_array() / object / scalar
 New(s, what) ==
   /\ slot[s] = None
-  /\ what \in {"arr", "obj", "num"}
-  /\ slot' = [slot EXCEPT ![s] = CASE what = "arr" -> EArr [] what = "obj" -> EObj [] OTHER -> Num(7)]
-  /\ model' = [model EXCEPT ![s] = CASE what = "arr" -> PArr(<<>>) [] what = "obj" -> PObj(EmptyFn) [] OTHER -> PNum(7)]
+  /\ what \in {"arr", "obj", "num", "null"}
+  /\ slot' = [slot EXCEPT ![s] = CASE what = "arr" -> EArr [] what = "obj" -> EObj [] what = "null" -> Null [] OTHER -> Num(7)]
+  /\ model' = [model EXCEPT ![s] = CASE what = "arr" -> PArr(<<>>) [] what = "obj" -> PObj(EmptyFn) [] what = "null" -> PNull [] OTHER -> PNum(7)]
   /\ UNCHANGED <<arena, vec, map>>
   /\ Step([op |-> "new", s |-> s, what |-> what])
 \* json!({"a": 8}) / json!([8, 9]): built values are owned containers from the start
@@ -463,6 +463,27 @@ SplitOff(s, p, i, o) ==
         /\ model' = [model EXCEPT ![s] = pm.v, ![o] = IF pm.ok THEN PArr(pm.out) ELSE PNone]
         /\ Step([op |-> "split_off", s |-> s, p |-> p, i |-> i, o |-> o, ok |-> pm.ok])
 
+\* value_at_p[key] = x where the value at p is null: IndexMut treats null like an empty object (documented), so it becomes
+\* the object {key: x}.  p = <<>> is the slot itself; otherwise the null is a member / element of the container at Front(p).
+IndexNull(s, p, key, src) ==
+  /\ slot[s] # None /\ (src \in Slots => (src # s /\ slot[src] # None))
+  /\ PlainAt(model[s], p) = PNull
+  /\ LET id == FreshM(Heap)
+         h0 == [Heap EXCEPT !.map[id] = [rc |-> 1, used |-> TRUE, ents |-> [q \in {key} |-> ArgRep(src)]]]
+         newP == PObj([q \in {key} |-> ArgPlain(src)])
+         lastE == p[Len(p)]
+         kind == IF IsKey(lastE) THEN "obj" ELSE "arr"
+         r == RepApply(h0, slot[s], SubSeq(p, 1, Len(p) - 1), kind, "set", Obj(id), IF IsKey(lastE) THEN lastE.s ELSE lastE.i)
+         pm == PlainApply(model[s], SubSeq(p, 1, Len(p) - 1), kind, "set", newP, IF IsKey(lastE) THEN lastE.s ELSE lastE.i)
+     IN IF p = <<>>
+        THEN /\ Put(h0)
+             /\ slot' = [q \in Slots |-> IF q = s THEN Obj(id) ELSE IF q = src THEN None ELSE slot[q]]
+             /\ model' = [q \in Slots |-> IF q = s THEN newP ELSE IF q = src THEN PNone ELSE model[q]]
+        ELSE /\ Put(r.h)
+             /\ slot' = [q \in Slots |-> IF q = s THEN r.v ELSE IF q = src THEN None ELSE slot[q]]
+             /\ model' = [q \in Slots |-> IF q = s THEN pm.v ELSE IF q = src THEN PNone ELSE model[q]]
+  /\ Step([op |-> "index_null", s |-> s, p |-> p, key |-> key, src |-> src])
+
 \* target.append(&mut other): all members of the container in slot src move into the container at path p of slot s;
 \* src stays an (empty) container.  Both sides are promoted (as_mut) first.
 AppendFrom(s, p, kind, src) ==
@@ -486,7 +507,7 @@ Consuming == {"push", "insert", "set", "resize"}
 Next ==
   \/ \E s \in Slots, d \in 1..Len(DocRoot) : FirstFree(s) /\ Parse(s, d)
   \/ \E b \in 1..Len(BadText) : ParseRejected(b)
-  \/ \E s \in Slots, w \in {"arr", "obj", "num"} : FirstFree(s) /\ New(s, w)
+  \/ \E s \in Slots, w \in {"arr", "obj", "num", "null"} : FirstFree(s) /\ New(s, w)
   \/ \E s \in Slots, w \in {"obj1", "arr2"} : FirstFree(s) /\ Build(s, w)
   \/ \E s, src \in Slots, kind \in {"arr", "obj"} : \E p \in (IF slot[s] = None THEN {} ELSE ContainerPaths(s)) : AppendFrom(s, p, kind, src)
   \/ \E s, t \in Slots : s # t /\ FirstFree(t) /\ \E p \in (IF slot[s] = None THEN {} ELSE PathsOfPlain(model[s])) : Clone(s, p, t)
@@ -495,6 +516,7 @@ Next ==
   \/ DeBad \/ DeClose
   \/ \E s \in Slots, e \in {PKey("z"), PIdx(5)} : \E p \in (IF slot[s] = None THEN {} ELSE {q \in PathsOfPlain(model[s]) : Len(q) <= 1}) : Probe(s, p, e)
   \/ \E s, t \in Slots : s # t /\ FirstFree(t) /\ Take(s, t)
+  \/ \E s \in Slots, src \in {"lit"} \cup Slots : \E p \in (IF slot[s] = None THEN {} ELSE {q \in PathsOfPlain(model[s]) : Len(q) <= 1}) : IndexNull(s, p, "a", src)
   \/ \E s, o \in Slots, i \in {0, 1, 3} : \E p \in (IF slot[s] = None THEN {} ELSE ContainerPaths(s)) : SplitOff(s, p, i, o)
   \/ \E s \in Slots : \E p \in (IF slot[s] = None THEN {} ELSE ContainerPaths(s)) :
        \/ \E op \in Consuming, src \in {"lit"} \cup (Slots \ {s}), i \in {0, 2} : Mutate(s, p, "arr", op, src, i, OutSlot(s, src))
